@@ -18,7 +18,7 @@ META = dict(
                "qucumber/callbacks/observable_evaluator.py: ObservableEvaluator.on_epoch_end, get_value, __len__",
                "qucumber/nn_states/neural_state.py: fit (stop handling)"],
     bounds=dict(quick="sequences of 5 evaluations (all real values, incl. zeros / equal / sign changes), tolerance >= 0 real, patience 1..3, evaluator and stopper periods in {1,2}, criteria relative / absolute / variance",
-                thorough="6 evaluations, patience 1..4, periods in {1,2,3}"),
+                thorough="7 evaluations, patience 1..5, periods in {1,2,3}"),
     outside=["the statistics behind ObservableEvaluator (System.statistics is scripted)", "longer runs than the bound"],
     stubs=["metric functions / System.statistics -> scripted symbolic sequences", "numerics of training stubbed as in C12"],
     assumptions=["relative criterion with M_{t-p} == 0 divides by zero in the library (ZeroDivisionError); such paths are reported as outside the rule, not as violations"],
@@ -171,8 +171,8 @@ def construction(I):
 
 def specs(tier):
     S = []
-    n = 5 if tier == "quick" else 6
-    pmax = 3 if tier == "quick" else 4
+    n = 5 if tier == "quick" else 7
+    pmax = 3 if tier == "quick" else 5
     periods = (1, 2) if tier == "quick" else (1, 2, 3)
 
     def inputs(with_var):
